@@ -82,6 +82,14 @@ def _cls(name, classes):
     raise HarnessError(f"unknown class name {name}")
 
 
+def _ntype(spec, classes):
+    """Argument of a constructor that takes *types* (it does not normalise annotations itself)."""
+    from ovld.types import normalize_type
+
+    a = annotate(spec, classes)
+    return a if isinstance(spec, str) else normalize_type(a, None)
+
+
 def _annotate(spec, classes):
     if isinstance(spec, str):
         return _cls(spec, classes)
@@ -90,19 +98,19 @@ def _annotate(spec, classes):
         return typing.Literal[tuple(rest)]
     if op == "dep":
         bound, pred = rest
-        t = Dependent[annotate(bound, classes), PREDS[pred]]
+        t = Dependent[_ntype(bound, classes), PREDS[pred]]
         t._vt_key = "dep:" + canon(spec)
         return t
     if op == "union":
         return typing.Union[tuple(annotate(r, classes) for r in rest)]
     if op == "ounion":  # ovld's own Union constructor (keeps dependent members)
-        return OvUnion[tuple(annotate(r, classes) for r in rest)]
+        return OvUnion[tuple(_ntype(r, classes) for r in rest)]
     if op == "inter":
-        return Intersection[tuple(annotate(r, classes) for r in rest)]
+        return Intersection[tuple(_ntype(r, classes) for r in rest)]
     if op == "exactly":
-        return Exactly[annotate(rest[0], classes)]
+        return Exactly[_ntype(rest[0], classes)]
     if op == "strict":
-        return StrictSubclass[annotate(rest[0], classes)]
+        return StrictSubclass[_ntype(rest[0], classes)]
     if op == "hasmethod":
         return HasMethod[rest[0]]
     if op == "type":
